@@ -20,6 +20,7 @@ class PFade(Pattern):
         self.counter = 0
         self.rcounter = 0
         self.pattern = None
+        self.is_finished = False
 
     def __repr__(self):
         return "PFade()"
@@ -66,6 +67,12 @@ class PFadeNotewise(PFade):
             self.fadestep -= 1
 
     def __next__(self):
+        if self.is_finished:
+            #----------------------------------------------------------------------
+            # the fade-out is complete: stay exhausted (do not begin a new cycle).
+            #----------------------------------------------------------------------
+            raise StopIteration
+
         if self.counter >= len(self.notes):
             #----------------------------------------------------------------------
             # we've reached the end of the sequence.
@@ -87,6 +94,7 @@ class PFadeNotewise(PFade):
                 self.rcounter = 0
                 self.fade_out()
                 if self.fadestep == 0:
+                    self.is_finished = True
                     raise StopIteration
             elif self.direction == PFade.PEAK and self.rcounter == self.repeats_postfade:
                 #----------------------------------------------------------------------
